@@ -16,7 +16,8 @@ EXPLANATION = (
     "data and the format terminator (BGZF EOF block, CRAM EOF container) and the thin format writers reach the inner "
     "finisher; (R4) multithreaded writer: a failed ticket send joins the writer thread and returns its error, and the "
     "writer thread propagates compression and sink errors with `?`."
-    " (R5) the own-crate closure of every staging Write::write impl reaches the sink only through write_all: a raw sink flush()/write() whose Interrupted escapes write() after bytes were staged makes write_all duplicate them.")
+    " (R5) the own-crate closure of every staging Write::write impl reaches the sink only through write_all: a raw sink flush()/write() whose Interrupted escapes write() after bytes were staged makes write_all duplicate them."
+    " (R6) a function that creates a file, wraps it in a buffering or compressing writer and returns io::Result<()> passes a flush/finish/try_finish/shutdown on every success path (found the genuine defect F23 in six index fs::write helpers, repaired).")
 ASSUMPTIONS = [
     "std::io::Write::write_all / tokio write_all loop over short writes and retry Interrupted (library contract)",
     "errors can only be lost by discarding a Result value or by matching its Err arm into a success path; panics are C15",
@@ -319,3 +320,23 @@ def run(ctx):
                           "%s, reachable from %s after the bytes were staged, calls the sink's raw %s(): an Interrupted from it escapes write() and "
                           "the caller's write_all() writes the same bytes again" % (fb.fns[k].root, w, fk.split("::")[-1]), fb.fns[k].loc(b))
     ctx.floor("C14.R5", "staging Write::write impls", nw, 2)
+
+    # ---------------------------------------------------------------- R6 a writer created and dropped inside one function
+    ctx.rule("C14.R6", "A3 local writers: a function that creates a file, wraps it in a buffering / compressing writer and returns io::Result<()> "
+                       "passes a flush / finish / try_finish / shutdown on every success path (otherwise the tail is written in Drop, which "
+                       "swallows the destination's error)")
+    FIN6 = re.compile(r"::(flush|finish|try_finish|shutdown|sync_all|sync_data)$")
+    n6 = 0
+    for k, f in sorted(fb.fns.items()):
+        if f.crate in ("noodles_htsget", "noodles_refget") or not k.startswith(("noodles_", "<noodles_")):
+            continue
+        if not any(re.search(r"fs::File::create$|fs::file::File::create$", c.get("f") or "") for b, c in f.calls()):
+            continue
+        body = f
+        if not re.match(r"core::result::Result<\(\), std::io::error::Error>", body.locals[0] or ""):
+            continue      # the writer is handed back to the caller (build_from_path)
+        n6 += 1
+        ctx.saw_fn(f)
+        R.must_pass(ctx, "C14.R6", k, None, "the locally created writer is flushed / finished before Ok", fn=body,
+                    callpred=lambda fn_, c: bool(FIN6.search(c.get("f") or "")))
+    ctx.floor("C14.R6", "functions that create, fill and drop a file writer", n6, 12)
